@@ -410,6 +410,12 @@ func (s *scope) resolve(key instanceKey, descriptor *Descriptor) (any, error) {
 			return instance, nil
 		}
 
+		// The singleton table is emptied by provider.Close: an operation that
+		// overlaps it reports the disposed provider, not a missing singleton
+		if atomic.LoadInt32(&s.rootProvider.disposed) != 0 {
+			return nil, ErrProviderDisposed
+		}
+
 		// Singleton should have been created at build time
 		return nil, &ResolutionError{
 			ServiceType: key.Type,
